@@ -21,10 +21,6 @@ def uR : UIdx w L R → Tree w R
   | .onlyL _ => .nil
   | .onlyR r => r
 
-/-- annotation of a one-sided item with prefix `p`: its longest-prefix match among the other side's
-entries `B`, else the match inherited from above -/
-def annOf {T : Type} (B : KL w T) (base : Lpm w T) : Pfx w → Lpm w T := fun p => orE (lpmK B p) base
-
 def uSem (e : UEntry w L R) : List (UV w L R) :=
   unionS (annOf (uR e.1).slotEntries e.2.2) (annOf (uL e.1).slotEntries e.2.1)
     (uL e.1).slotEntries (uR e.1).slotEntries
